@@ -17,12 +17,14 @@ font bytes with read-fonts accessors only):
   `layer`    = `Colr::v1_layer`      (`none` = `Err`), result = paint id (absolute position),
   `base`     = `Colr::v1_base_glyph` (`err` / `notFound` = `Ok(None)` / `found id`),
   `hasClip`  = `get_clipbox_font_units(..).is_some()`;
-* solid / gradient arms are the single node `leaf fills` where `fills` says whether the arm reaches its
-  (only) `painter.fill(..)` call — the float normalisation of the colour line decides that and does not
-  influence nesting;
-* the five transform arms are one node (`Transform::try_from` cannot fail on them);
-* payloads of callbacks are reduced to what nesting can depend on: glyph ids, composite modes,
-  whether a brush transform is present.
+* solid / gradient arms are the single node `leaf brush?`: `none` when the arm does not reach its (only)
+  `painter.fill(..)` call, else the brush it passes, as an opaque integer description (`Brush`; the
+  byte-level instance of Model/PaintBytes.lean computes it from the table bytes);
+* the five transform arms are one node (`Transform::try_from` cannot fail on them) carrying a `tag`
+  that identifies the transform paint; a pushed transform is a word (product) of such tags, so that the
+  accumulation `*existing_transform *= transform` of `CollectFillGlyphPainter` is visible;
+* payloads of callbacks: glyph ids, composite modes, clip box values (`[x_min, y_min, x_max, y_max]`),
+  brushes, transform words.
 
 The client (`&mut impl ColorPainter` passed to `ColorGlyph::paint`) is a `Client`: does it override
 `fill_glyph` (otherwise the trait default is expanded into the primitive callbacks), and what does
@@ -33,14 +35,20 @@ namespace FontVerif.Paint
 
 abbrev PaintId := Nat
 abbrev Gid := Nat
+/-- what `painter.fill(brush)` receives, as integers (opaque to the traversal) -/
+abbrev Brush := List Int
+/-- `BoundingBox<f32>` of `push_clip_box`: `[x_min, y_min, x_max, y_max]` -/
+abbrev ClipBoxV := List Int
+/-- a `Transform` as the product of the transform paints (their tags) it was accumulated from -/
+abbrev TWord := List Nat
 
 /-- `ResolvedPaint` reduced to its traversal-relevant shape. -/
 inductive Node where
   | colrLayers (first num : Nat)
-  | leaf (fills : Bool)
+  | leaf (brush : Option Brush)
   | glyph (gid : Gid) (child : PaintId)
   | colrGlyph (gid : Gid)
-  | transform (child : PaintId)
+  | transform (tag : Nat) (child : PaintId)
   | composite (src : PaintId) (mode : Nat) (backdrop : PaintId)
   deriving DecidableEq, Repr, Inhabited
 
@@ -55,19 +63,20 @@ structure Instance where
   resolve : PaintId → Option Node
   layer : Nat → Option PaintId
   base : Gid → BaseGlyph
-  hasClip : Gid → Bool
+  /-- `get_clipbox_font_units(instance, gid)` -/
+  clip : Gid → Option ClipBoxV
 
 /-- `ColorPainter` callbacks as received by the client (root painter). -/
 inductive Event where
-  | pushT
+  | pushT (w : TWord)
   | popT
   | pushClipGlyph (g : Gid)
-  | pushClipBox
+  | pushClipBox (b : ClipBoxV)
   | popClip
   | pushLayer (m : Nat)
   | popLayer (m : Nat)
-  | fill
-  | fillGlyph (g : Gid) (ht : Bool)
+  | fill (b : Brush)
+  | fillGlyph (g : Gid) (bt : Option TWord) (b : Brush)
   | cached (g : Gid)
   deriving DecidableEq, Repr, Inhabited
 
@@ -112,26 +121,31 @@ structure Client where
 /-- state of one `CollectFillGlyphPainter` -/
 structure Opt where
   success : Bool
-  hasT : Bool
+  /-- `brush_transform` -/
+  bt : Option TWord
   gid : Gid
   deriving DecidableEq, Repr, Inhabited
 
 /-- default `ColorPainter::fill_glyph`: the primitive calls it makes on `self`. -/
-def expandFillGlyph (g : Gid) (ht : Bool) : List Event :=
-  [.pushClipGlyph g] ++ (if ht then [.pushT, .fill, .popT] else [.fill]) ++ [.popClip]
+def expandFillGlyph (g : Gid) (bt : Option TWord) (b : Brush) : List Event :=
+  [.pushClipGlyph g] ++ (match bt with
+    | some w => [.pushT w, .fill b, .popT]
+    | none => [.fill b]) ++ [.popClip]
 
 /-- One primitive callback on a `CollectFillGlyphPainter`; returns the new state and the calls it
 makes on its parent painter (`fill` ⇒ `parent.fill_glyph(..)` while still successful). -/
 def optPrim (o : Opt) : Event → Opt × List Event
-  | .pushT => (if o.success then { o with hasT := true } else o, [])
+  | .pushT w => (if o.success then { o with bt := some (match o.bt with
+      | none => w
+      | some e => e ++ w) } else o, [])
   | .popT => (o, [])
-  | .fill => (o, if o.success then [.fillGlyph o.gid o.hasT] else [])
+  | .fill b => (o, if o.success then [.fillGlyph o.gid o.bt b] else [])
   | .pushClipGlyph _ => ({ o with success := false }, [])
-  | .pushClipBox => ({ o with success := false }, [])
+  | .pushClipBox _ => ({ o with success := false }, [])
   | .popClip => ({ o with success := false }, [])
   | .pushLayer _ => ({ o with success := false }, [])
   | .popLayer _ => ({ o with success := false }, [])
-  | .fillGlyph _ _ => (o, [])   -- not primitive; handled by `optCalls`
+  | .fillGlyph _ _ _ => (o, [])   -- not primitive; handled by `optCalls`
   | .cached _ => (o, [])        -- default `paint_cached_color_glyph`: no state change
 
 def optPrims (o : Opt) : List Event → Opt × List Event
@@ -147,14 +161,14 @@ def optCalls (o : Opt) : List Event → Opt × List Event
   | [] => (o, [])
   | e :: es =>
     let r1 := match e with
-      | .fillGlyph g ht => optPrims o (expandFillGlyph g ht)
+      | .fillGlyph g bt b => optPrims o (expandFillGlyph g bt b)
       | e => optPrim o e
     let r2 := optCalls r1.1 es
     (r2.1, r1.2 ++ r2.2)
 
 /-- what the client records for one call -/
 def rootRecord (c : Client) : Event → List Event
-  | .fillGlyph g ht => if c.overridesFillGlyph then [.fillGlyph g ht] else expandFillGlyph g ht
+  | .fillGlyph g bt b => if c.overridesFillGlyph then [.fillGlyph g bt b] else expandFillGlyph g bt b
   | e => [e]
 
 /-- Deliver calls to the painter on top of a stack of nested `CollectFillGlyphPainter`s (top first)
@@ -181,6 +195,18 @@ def askCached (c : Client) (g : Gid) (st : St) : CachedAns × St :=
   match st.opts with
   | [] => (c.cached g, { st with evs := st.evs ++ [.cached g] })
   | _ :: _ => (.unimplemented, st)
+
+/-- `if let Some(rect) = clipbox { painter.push_clip_box(rect) }` -/
+def pushClip (c : Client) (box : Option ClipBoxV) (st : St) : St :=
+  match box with
+  | some b => emit c (.pushClipBox b) st
+  | none => st
+
+/-- `if clipbox.is_some() { painter.pop_clip() }` -/
+def popClipIf (c : Client) (box : Option ClipBoxV) (st : St) : St :=
+  match box with
+  | some _ => emit c .popClip st
+  | none => st
 
 /-! ## traversal.rs -/
 
@@ -216,12 +242,14 @@ def arm (inst : Instance) (c : Client) (rec : Node → List PaintId → St → R
           match inst.resolve pid with
           | none => (some .parse, st)
           | some n => rec n dec' st) (List.range' first num) st
-  | .leaf fills => (none, if fills then emit c .fill st else st)
+  | .leaf brush => (none, match brush with
+    | some b => emit c (.fill b) st
+    | none => st)
   | .glyph g child =>
     match inst.resolve child with
     | none => (some .parse, st)
     | some n =>
-      let r1 := rec n dec { st with opts := { success := true, hasT := false, gid := g } :: st.opts }
+      let r1 := rec n dec { st with opts := { success := true, bt := none, gid := g } :: st.opts }
       match r1.2.opts with
       | [] => r1   -- unreachable: the stack height is preserved
       | o :: rest =>
@@ -243,14 +271,14 @@ def arm (inst : Instance) (c : Client) (rec : Node → List PaintId → St → R
         | .err => (some .client, a.2)
         | .ok => (none, a.2)
         | .unimplemented =>
-          let st2 := if inst.hasClip g then emit c .pushClipBox a.2 else a.2
+          let st2 := pushClip c (inst.clip g) a.2
           match inst.resolve pid with
           | none => (some .parse, st2)
           | some n =>
             let r := rec n dec' st2
-            (r.1, if inst.hasClip g then emit c .popClip r.2 else r.2)
-  | .transform child =>
-    let st1 := emit c .pushT st
+            (r.1, popClipIf c (inst.clip g) r.2)
+  | .transform tag child =>
+    let st1 := emit c (.pushT [tag]) st
     match inst.resolve child with
     | none => (some .parse, st1)
     | some n =>
@@ -287,7 +315,7 @@ def paintV1 (inst : Instance) (c : Client) (gid : Gid) : Option Res :=
   | .err => none
   | .notFound => none
   | .found pid =>
-    let st1 := if inst.hasClip gid then emit c .pushClipBox St.init else St.init
+    let st1 := pushClip c (inst.clip gid) St.init
     match enter [] pid with
     | .error e => some (some e, st1)
     | .ok dec =>
@@ -297,18 +325,22 @@ def paintV1 (inst : Instance) (c : Client) (gid : Gid) : Option Res :=
         let r := trav inst c MAX_TRAVERSAL_DEPTH n dec st1
         match r.1 with
         | some e => some (some e, r.2)
-        | none => some (none, if inst.hasClip gid then emit c .popClip r.2 else r.2)
+        | none => some (none, popClipIf c (inst.clip gid) r.2)
 
-/-- `traverse_v0_range`: `layers i` = `Colr::v0_layer(i)` (`none` = `Err`), giving the layer glyph. -/
-def travV0 (c : Client) (layers : Nat → Option Gid) : List Nat → St → Res
+/-- `Brush::Solid { palette_index, alpha }` (alpha: raw `F2Dot14` bits, `1.0` = 16384) -/
+def solidBrush (palette : Nat) (alpha : Int) : Brush := [0, (palette : Int), alpha]
+
+/-- `traverse_v0_range`: `layers i` = `Colr::v0_layer(i)` (`none` = `Err`), giving the layer glyph and its
+palette index (`0xFFFF`, the foreground colour, is passed on like any other index). -/
+def travV0 (c : Client) (layers : Nat → Option (Gid × Nat)) : List Nat → St → Res
   | [], st => (none, st)
   | i :: is, st =>
     match layers i with
     | none => (some .parse, st)
-    | some g => travV0 c layers is (emit c (.fillGlyph g false) st)
+    | some (g, pal) => travV0 c layers is (emit c (.fillGlyph g none (solidBrush pal 16384)) st)
 
 /-- `ColorGlyph::paint` for a `ColorGlyphRoot::V0Range(first .. first+num)` -/
-def paintV0 (c : Client) (layers : Nat → Option Gid) (first num : Nat) : Res :=
+def paintV0 (c : Client) (layers : Nat → Option (Gid × Nat)) (first num : Nat) : Res :=
   travV0 c layers (List.range' first num) St.init
 
 /-! ## nesting discipline (the observable the property talks about) -/
@@ -322,12 +354,12 @@ inductive Frame where
 /-- one callback against the stack of currently open scopes; `none` = a pop that does not match the
 innermost open scope (or nothing open) -/
 def step (s : List Frame) : Event → Option (List Frame)
-  | .pushT => some (.transform :: s)
+  | .pushT _ => some (.transform :: s)
   | .popT => match s with
     | .transform :: r => some r
     | _ => none
   | .pushClipGlyph _ => some (.clip :: s)
-  | .pushClipBox => some (.clip :: s)
+  | .pushClipBox _ => some (.clip :: s)
   | .popClip => match s with
     | .clip :: r => some r
     | _ => none
@@ -335,8 +367,8 @@ def step (s : List Frame) : Event → Option (List Frame)
   | .popLayer m => match s with
     | .layer m' :: r => if m = m' then some r else none
     | _ => none
-  | .fill => some s
-  | .fillGlyph _ _ => some s
+  | .fill _ => some s
+  | .fillGlyph _ _ _ => some s
   | .cached _ => some s
 
 def run (s : List Frame) : List Event → Option (List Frame)
@@ -357,7 +389,7 @@ instance (evs : List Event) : Decidable (WellNested evs) := by unfold WellNested
 way succeed) -/
 inductive Edge (inst : Instance) : Node → Node → Prop
   | glyph {g child m} : inst.resolve child = some m → Edge inst (.glyph g child) m
-  | transform {child m} : inst.resolve child = some m → Edge inst (.transform child) m
+  | transform {tag child m} : inst.resolve child = some m → Edge inst (.transform tag child) m
   | compSrc {src mode bd m} : inst.resolve src = some m → Edge inst (.composite src mode bd) m
   | compBackdrop {src mode bd m} : inst.resolve bd = some m → Edge inst (.composite src mode bd) m
   | layer {first num i pid m} : first ≤ i → i < first + num → inst.layer i = some pid →
@@ -389,10 +421,10 @@ def LayersBounded (inst : Instance) (k : Nat) : Prop :=
 `PaintGlyph(glyph 0, child i+1)`, paint `d` is the solid; colour glyph 0 has root paint 0.
 As a font this is a 250-byte tree-shaped COLR table with no sharing and no cycle. -/
 def glyphChain (d : Nat) : Instance where
-  resolve := fun i => if i < d then some (.glyph 0 (i + 1)) else if i = d then some (.leaf true) else none
+  resolve := fun i => if i < d then some (.glyph 0 (i + 1)) else if i = d then some (.leaf (some [])) else none
   layer := fun _ => none
   base := fun g => if g = 0 then .found 0 else .notFound
-  hasClip := fun _ => false
+  clip := fun _ => none
 
 /-- paint nodes visited when painting `glyphChain d` -/
 def chainVisits : Nat → Nat
@@ -409,14 +441,14 @@ def lookup {α : Type} (tbl : List (Nat × α)) (k : Nat) : Option α :=
 
 /-- instance given by finite tables; bases: `some pid` = found, `none` = error, unlisted = notFound -/
 def Instance.ofTables (nodes : List (Nat × Node)) (layers : List (Nat × Option PaintId))
-    (bases : List (Nat × Option PaintId)) (clips : List Nat) : Instance where
+    (bases : List (Nat × Option PaintId)) (clips : List (Nat × ClipBoxV)) : Instance where
   resolve := fun id => lookup nodes id
   layer := fun i => (lookup layers i).bind id
   base := fun g => match lookup bases g with
     | none => .notFound
     | some none => .err
     | some (some p) => .found p
-  hasClip := fun g => clips.contains g
+  clip := fun g => lookup clips g
 
 def cachedMode (mode : Nat) (g : Gid) : CachedAns :=
   match mode with
